@@ -73,6 +73,17 @@ where
             }
         };
 
+        #[cfg(bmwill_anemo_verif)]
+        crate::verif::emit(
+            "tmo.set",
+            crate::verif::json!({
+                "dir": "inbound",
+                "default_ns": self.default_timeout.map(|d| d.as_nanos() as u64),
+                "header": req.headers().get(crate::types::header::TIMEOUT),
+                "chosen_ns": timeout_duration.map(|d| d.as_nanos() as u64),
+            }),
+        );
+
         ResponseFuture {
             inner: self.inner.call(req),
             sleep: timeout_duration.map(tokio::time::sleep),
@@ -104,6 +115,8 @@ where
 
         if let Some(sleep) = this.sleep.as_pin_mut() {
             futures::ready!(sleep.poll(cx));
+            #[cfg(bmwill_anemo_verif)]
+            crate::verif::emit("tmo.fire", crate::verif::json!({ "dir": "inbound" }));
             let response = Response::new(Bytes::new()).with_status(StatusCode::RequestTimeout);
             return Poll::Ready(Ok(response));
         }
